@@ -69,3 +69,48 @@ func RunEngine(conf engine.Config, log *zap.Logger, watchdog time.Duration) RunR
 	}
 	return r
 }
+
+// DecodedPool decodes one pool whose rps (and optionally startup) section is given as config —
+// a mapping or a list, as a user writes it — and returns the pool config with the factories the
+// config decoder built; provider, gun and aggregator are for the caller to replace.
+func DecodedPool(rps any, startup any, perInstance bool) (engine.InstancePoolConfig, error) {
+	ammo := WriteMem([]byte("/x\n"))
+	defer RemoveMem(ammo)
+	if startup == nil {
+		startup = map[string]any{"type": "once", "times": 1}
+	}
+	ec, err := DecodePools(map[string]any{"pools": []any{map[string]any{
+		"id": "p", "ammo": map[string]any{"type": "uri", "file": ammo}, "result": map[string]any{"type": "discard"},
+		"gun": map[string]any{"type": "http", "target": "127.0.0.1:1"}, "rps": rps, "startup": startup, "rps-per-instance": perInstance,
+	}}})
+	if err != nil {
+		return engine.InstancePoolConfig{}, err
+	}
+	return ec.Pools[0], nil
+}
+
+// ConfMap renders a SchedSpec as the config a user would write (a mapping; composites as lists).
+func (s SchedSpec) ConfMap() any {
+	dur := func() string { return (time.Duration(s.DurMs) * time.Millisecond).String() }
+	switch s.Kind {
+	case "once":
+		return map[string]any{"type": "once", "times": s.N}
+	case "const":
+		return map[string]any{"type": "const", "ops": s.A, "duration": dur()}
+	case "line":
+		return map[string]any{"type": "line", "from": s.A, "to": s.B, "duration": dur()}
+	case "step":
+		return map[string]any{"type": "step", "from": s.A, "to": s.B, "step": s.N, "duration": dur()}
+	case "instance_step":
+		return map[string]any{"type": "instance_step", "from": int64(s.A), "to": int64(s.B), "step": s.N, "stepduration": dur()}
+	case "unlimited":
+		return map[string]any{"type": "unlimited", "duration": dur()}
+	case "composite":
+		var xs []any
+		for _, p := range s.Parts {
+			xs = append(xs, p.ConfMap())
+		}
+		return xs
+	}
+	panic("unknown schedule kind " + s.Kind)
+}
